@@ -87,21 +87,89 @@ def check_cfg(ctx):
                     else:
                         ctx.holds('R-CFG', '-', label, ref[0] if ref else None)
     ctx.floor('cfg assignments enumerated', rows, 32)
-    # census of CPU-feature switches anywhere in the sources: each must be one that the compared configurations toggle
-    covered = {'sse2', 'simd128', 'fma', 'avx', 'avx2', 'sse4.1', 'sse4.2'}
+    # census of CPU-feature switches anywhere in the sources: for every #[cfg(..)] / cfg!(..) predicate that mentions a target_feature, every
+    # truth value it can take on an x86-64 CPU (closed under the implication chain of the features) must be taken in one of the compared
+    # x86 configurations - otherwise some code variant is compiled by no analysed build and bit-identity across it is not established
+    import itertools
+    CHAIN = ['sse', 'sse2', 'sse3', 'ssse3', 'sse4.1', 'sse4.2', 'avx', 'avx2']      # each implies its predecessors
+    IMPL = {'fma': 'avx'}
+    BUILT = {'sse2': {'sse', 'sse2'}, 'sse41': {'sse', 'sse2', 'sse3', 'ssse3', 'sse4.1', 'sse4.2'},
+             'sse2-fma': {'sse', 'sse2', 'sse3', 'ssse3', 'sse4.1', 'sse4.2', 'avx', 'avx2', 'fma'}}
+    OTHER_ARCH = {'simd128', 'neon'}
     seen = {}
+    preds = {}
     for root, dirs, fs in os.walk(os.path.join(REPO, 'src')):
         for f in fs:
-            if f.endswith('.rs'):
-                txt = open(os.path.join(root, f), encoding='utf8', errors='replace').read()
-                for m in re.finditer(r'target_feature\s*=\s*"([^"]+)"', txt):
-                    seen.setdefault(m.group(1), set()).add(os.path.relpath(os.path.join(root, f), REPO))
-    for feat, files_ in sorted(seen.items()):
-        if feat in covered:
-            ctx.holds('R-CFG', '-', 'target_feature "%s" is toggled by a compared configuration' % feat, sorted(files_)[:4])
+            if not f.endswith('.rs'):
+                continue
+            txt = open(os.path.join(root, f), encoding='utf8', errors='replace').read()
+            rel = os.path.relpath(os.path.join(root, f), REPO)
+            for m in re.finditer(r'target_feature\s*=\s*"([^"]+)"', txt):
+                seen.setdefault(m.group(1), set()).add(rel)
+            for m in re.finditer(r'cfg(?:_attr)?!?\s*\(', txt):
+                # balanced parenthesis scan
+                k = m.end()
+                depth = 1
+                while k < len(txt) and depth:
+                    depth += {'(': 1, ')': -1}.get(txt[k], 0)
+                    k += 1
+                body = txt[m.end():k - 1]
+                if 'target_feature' in body:
+                    if m.group(0).startswith('cfg_attr'):
+                        body = body.split(',', 1)[0] if not body.lstrip().startswith(('all', 'any', 'not')) else body[:body.index(')') + 1] if False else body
+                    preds.setdefault(body.strip(), set()).add(rel)
+
+    def consistent(assign):
+        on = {a for a, v in assign.items() if v}
+        for a in on:
+            if a in CHAIN:
+                for b in CHAIN[:CHAIN.index(a)]:
+                    if b in assign and not assign[b]:
+                        return False
+            if a in IMPL and IMPL[a] in assign and not assign[IMPL[a]]:
+                return False
+        if assign.get('sse') is False or assign.get('sse2') is False:
+            return False        # x86-64 baseline
+        return True
+    n_pred = 0
+    for text, files_ in sorted(preds.items()):
+        try:
+            tree = cfgparse.parse_cfg(text)
+        except ValueError as e:
+            ctx.unverifiable('R-CFG', '-', 'cfg(%s)' % text[:80], 'predicate over CPU features outside the grammar: %s' % e)
+            continue
+        tf = sorted(v for (k_, v) in cfgparse.atoms(tree) if k_ == 'target_feature')
+        if not tf or all(a in OTHER_ARCH for a in tf):
+            continue
+        unknown = [a for a in tf if a not in CHAIN and a not in IMPL and a not in OTHER_ARCH]
+        n_pred += 1
+        label = 'cfg(%s)' % text[:100]
+        if unknown:
+            ctx.unverifiable('R-CFG', '-', label, 'the sources switch on CPU feature(s) %s (%s) which no compared configuration toggles: bit-identity across that feature is not established' % (unknown, sorted(files_)[:3]))
+            continue
+        x86 = [a for a in tf if a not in OTHER_ARCH]
+
+        def ev(tfset):
+            env = {'target_feature': set(tfset), 'feature': set(), 'target_arch': 'x86_64', 'flags': set(), 'target_family': 'unix', 'target_os': 'linux',
+                   'target_pointer_width': '64', 'target_endian': 'little'}
+            try:
+                return cfgparse.evaluate(tree, env)
+            except ValueError:
+                return None
+        # other atoms (cargo features, arch) are held fixed: what matters here is the dependence on the CPU feature set
+        possible = set()
+        for bits in itertools.product([False, True], repeat=len(x86)):
+            a_ = dict(zip(x86, bits))
+            if consistent(a_):
+                possible.add(ev({k_ for k_, v in a_.items() if v}))
+        built = {ev(BUILT[c] & set(x86)) for c in BUILT}
+        missing = possible - built - {None}
+        if missing:
+            ctx.unverifiable('R-CFG', '-', label, 'the predicate can be %s on some x86-64 CPU feature set, but in none of the compared configurations %s (%s): that code variant is analysed by no build' % (sorted(missing), sorted(BUILT), sorted(files_)[:3]))
         else:
-            ctx.unverifiable('R-CFG', '-', 'target_feature "%s"' % feat, 'the sources switch on CPU feature %r (%s) which no compared configuration toggles: bit-identity across that feature is not established' % (feat, sorted(files_)[:3]))
+            ctx.holds('R-CFG', '-', label + ' takes every achievable value in a compared configuration', sorted(files_)[:4])
     ctx.floor('CPU feature switches found in the sources', len(seen), 3)
+    ctx.floor('cfg predicates over CPU features', n_pred, 3)
     ctx.floor('guarded backend items parsed', sum(len(v) for v in per_file.values()), 30)
 
 
@@ -230,7 +298,7 @@ def simd_roots(F):
 
 def run(ctx):
     quick = ctx.tier == 'quick'
-    base_cfgs = ['sse2', 'sse2-fma', 'scalar'] + ([] if quick else ['coresimd', 'neon', 'wasm32', 'wasm32-scalar', 'fastmath', 'libm'])
+    base_cfgs = ['sse2', 'sse2-fma', 'sse41', 'sse2-dbg', 'scalar', 'coresimd', 'neon', 'wasm32', 'wasm32-scalar', 'fastmath', 'libm']
     configs = ctx.need(base_cfgs)
     ctx.trusted = TRUSTED_COMMON
     check_cfg(ctx)
@@ -242,32 +310,37 @@ def run(ctx):
             ctx.control('fast-math + fma build contains the fused op in m128_mul_add', k, 'positive control for the fused-symbol pattern')
         else:
             check_fused(ctx, c, facts[c], False)
-    # (c) exact sibling equality sse2 vs sse2-fma (all reachable roots in thorough, SIMD types in quick)
-    if 'sse2' in facts and 'sse2-fma' in facts:
-        Fa, Fb = facts['sse2'], facts['sse2-fma']
-        Ha, Hb = ctx.harness('sse2'), ctx.harness('sse2-fma')
+    # (c) exact sibling equality of the default build with every other x86 build (more CPU features; debug assertions on):
+    #     all reachable roots in thorough, SIMD-backed types (and every root for the debug-assertions build) in quick
+    for other in ('sse2-fma', 'sse41', 'sse2-dbg'):
+        if 'sse2' not in facts or other not in facts:
+            continue
+        pair = 'sse2|%s' % other
+        Fa, Fb = facts['sse2'], facts[other]
+        Ha, Hb = ctx.harness('sse2'), ctx.harness(other)
         n = 0
-        for (name, it, _tn) in (simd_roots(Fa) if quick else ((n_, i_, None) for n_, i_ in api_roots(Fa))):
+        all_roots = (not quick) or other == 'sse2-dbg'
+        for (name, it, _tn) in (((n_, i_, None) for n_, i_ in api_roots(Fa)) if all_roots else simd_roots(Fa)):
             if (it.get('trait') or '').rsplit('::', 1)[-1] in ('Debug', 'Display', 'Hash'):
                 continue      # outputs are opaque formatter/hasher states; compared through effect sequences in (e)
             itb = Fb.items.get(name)
             if itb is None:
-                ctx.unverifiable('R-SIB-EXACT', 'sse2|sse2-fma', name, 'function missing in the +fma build')
+                ctx.unverifiable('R-SIB-EXACT', pair, name, 'function missing in the %s build' % other)
                 continue
             ra, rb = Ha.run(it['key']), Hb.run(itb['key'])
             n += 1
             if ra.abort or rb.abort:
-                ctx.undecided('R-SIB-EXACT', 'sse2|sse2-fma', name, ra.abort or rb.abort)
+                ctx.undecided('R-SIB-EXACT', pair, name, ra.abort or rb.abort)
                 continue
             oa, ob = root_outputs(Fa, ra, Fa.body(it['key'])), root_outputs(Fb, rb, Fb.body(itb['key']))
             if len(oa) != len(ob) or any(x is not y for x, y in zip(oa, ob)):
                 diff = [(tm.show(x, 0, 5)[:160], tm.show(y, 0, 5)[:160]) for x, y in zip(oa, ob) if x is not y][:2]
-                ctx.violation('R-SIB-EXACT', 'sse2|sse2-fma', name, {'file': it['file'], 'line': it['line'], 'problem': 'result term depends on the CPU feature set', 'baseline_vs_fma': diff})
-            elif len(ra.panics) != len(rb.panics):
-                ctx.violation('R-SIB-EXACT', 'sse2|sse2-fma', name, {'problem': 'panic sites differ between CPU feature sets'})
+                ctx.violation('R-SIB-EXACT', pair, name, {'file': it['file'], 'line': it['line'], 'problem': 'result term differs between the default build and the %s build' % other, 'default_vs_other': diff})
+            elif other != 'sse2-dbg' and len(ra.panics) != len(rb.panics):
+                ctx.violation('R-SIB-EXACT', pair, name, {'problem': 'panic sites differ between CPU feature sets'})
             else:
-                ctx.holds('R-SIB-EXACT', 'sse2|sse2-fma', name)
-        ctx.floor('functions compared across CPU feature sets', n, 1150 if quick else 13000)
+                ctx.holds('R-SIB-EXACT', pair, name)
+        ctx.floor('functions compared %s' % pair, n, 13000 if all_roots else 1150)
     # (d) real-field sibling equality: each SIMD backend vs scalar, SIMD-backed types
     if 'scalar' in facts:
         Fs, Hs = facts['scalar'], ctx.harness('scalar')
